@@ -138,6 +138,10 @@ def curated():
     # asynchronous requests on a pair whose only data connection is time-shifted / weak: the async connection still means zero delay
     a(mk('async2s', ['A', 'B'], {'A': 'tb', 'B': 'tb'}, [('A', 'B', {'k': 1, 'async': True})], tags=['data', 'async']))
     a(mk('async2w', [['A', 'B']], {'A': 'tb', 'B': 'hy'}, [('A', 'B', {'i': 't', 'weak': True, 'async': True})], tags=['data', 'async']))
+    # asynchronous requests between simulators at different group depths, next to another connection (the delay of the async
+    # connection is composed with it by the set-up closures)
+    a(mk('async_in', ['A', ['B', 'C']], {'A': 'tb', 'B': 'tb', 'C': 'hy'}, [('A', 'B', {'async': True}), ('B', 'C', {'i': 't'})], tags=['data', 'async', 'groups']))
+    a(mk('async_out', [['A'], 'B', 'C'], {'A': 'hy', 'B': 'tb', 'C': 'hy'}, [('A', 'B', {'async': True, 'o': 'p'}), ('C', 'A', {'i': 't'})], tags=['data', 'async', 'groups']))
     a(mk('async2hy', ['A', 'B'], {'A': 'hy', 'B': 'hy'}, [('A', 'B', {'async': True})], tags=['trigger', 'async']))
     a(mk('async3', ['A', 'B', 'C'], {'A': 'tb', 'B': 'tb', 'C': 'hy'}, [('A', 'B', {'async': True}), ('B', 'C', {'i': 't'})], tags=['data', 'async']))
     # --- initial events at a later time, self-connection
